@@ -18,6 +18,15 @@ Theorem C06_sound : forall pol path vs,
 Proof. exact find_verifiers_sound. Qed.
 Print Assumptions C06_sound.
 
+(** Never "unprotected" when a rule of the top-level file (other than its trailing allow rule)
+    matches the path: the answer then contains at least one verifier. *)
+Theorem C06_top_level_match_is_protected : forall pol path f vs,
+  find_file pol TargetsRole = Some f ->
+  (exists r, In r (removelast (f_rules f)) /\ rule_matches r path = true) ->
+  find_verifiers pol path = WOk vs -> vs <> [].
+Proof. exact top_level_match_is_protected. Qed.
+Print Assumptions C06_top_level_match_is_protected.
+
 (** C06_exact_partial.  The full statement — the consulted set EQUALS the reached set under unique
     rule names, hence "matched by a reachable rule => never reported unprotected" — is stated as
     the executable [reached] / [same_names] comparison in C06Check.v and evaluated against the
